@@ -41,6 +41,16 @@ func Creator(separator rune) func(ctx context.Context, name string, options map[
 			}
 			fieldNames = make([]string, len(row))
 			copy(fieldNames, row)
+			// Column names have to be unique to be addressable, later duplicates get a numeric suffix.
+			seenNames := map[string]bool{}
+			for i := range fieldNames {
+				name := fieldNames[i]
+				for n := 1; seenNames[name]; n++ {
+					name = fmt.Sprintf("%s_%d", fieldNames[i], n)
+				}
+				fieldNames[i] = name
+				seenNames[name] = true
+			}
 		}
 
 		fields := make([]octosql.Type, len(fieldNames))
